@@ -354,13 +354,14 @@ void do_printf_ints(S &sink, char t, format_options opts,
 	case 'b':
 	case 'B' : {
 		auto print = [&] (auto number) {
+			const char *prefix = nullptr;
 			if (number && opts.alt_conversion)
-				sink.append(t == 'b' ? "0b" : "0B");
+				prefix = t == 'b' ? "0b" : "0B";
 
 			_fmt_basics::print_int(sink, number, 2, opts.minimum_width,
 					opts.precision ? *opts.precision : 1, opts.fill_zeros ? '0' : ' ',
 					opts.left_justify, false, opts.always_sign, opts.plus_becomes_space,
-					false, locale_opts);
+					false, locale_opts, prefix);
 		};
 
 		if(szmod == printf_size_mod::char_size) {
@@ -382,11 +383,19 @@ void do_printf_ints(S &sink, char t, format_options opts,
 	} break;
 	case 'o': {
 		auto print = [&] (auto number) {
-			if (number && opts.alt_conversion)
-				sink.append('0');
+			// The alternative form raises the precision, if necessary,
+			// so that the first digit of the result is a zero.
+			int precision = opts.precision ? *opts.precision : 1;
+			if (opts.alt_conversion) {
+				int num_digits = 0;
+				for (auto n = number; n; n /= 8)
+					num_digits++;
+				if (precision <= num_digits)
+					precision = num_digits + 1;
+			}
 
 			_fmt_basics::print_int(sink, number, 8, opts.minimum_width,
-					opts.precision ? *opts.precision : 1, opts.fill_zeros ? '0' : ' ',
+					precision, opts.fill_zeros ? '0' : ' ',
 					opts.left_justify, false, opts.always_sign, opts.plus_becomes_space,
 					false, locale_opts);
 		};
@@ -411,13 +420,14 @@ void do_printf_ints(S &sink, char t, format_options opts,
 	case 'x':
 	case 'X': {
 		auto print = [&] (auto number) {
+			const char *prefix = nullptr;
 			if (number && opts.alt_conversion)
-				sink.append(t == 'x' ? "0x" : "0X");
+				prefix = t == 'x' ? "0x" : "0X";
 
 			_fmt_basics::print_int(sink, number, 16, opts.minimum_width,
 					opts.precision ? *opts.precision : 1, opts.fill_zeros ? '0' : ' ',
 					opts.left_justify, false, opts.always_sign, opts.plus_becomes_space,
-					t == 'X', locale_opts);
+					t == 'X', locale_opts, prefix);
 		};
 
 		if(szmod == printf_size_mod::char_size) {
